@@ -61,6 +61,14 @@ CLAIMED = {
               "leave the process alive, a fresh connection served and canary data intact; a crash is bisected to one command."),
         note=TB + "Stack cost per level, allocator behaviour under memory pressure, Lua run time (no script time limit: recorded finding) and lock-order deadlocks cannot be exhibited by a theorem; process liveness is explored, not proved.",
         ref="DESIGN.md section 5 C06"),
+    "C09": dict(
+        text=("Proof: decode(encode) = identity for every length below 2^32 (all three length forms by omega, truncation beyond proved as witness), every byte string, every value of "
+              "all six types with arbitrary contents, and whole snapshots: decSnapshot(encSnapshot d t) t' = the dataset with exactly the entries still alive at t' (keys expired during "
+              "the downtime absent), with an exact characterisation of what the loader makes of any valid dataset and totality of the loader model on every byte string - Lean theorems over a "
+              "byte-exact model of rdb.rs; real save/load in-process and one TCP restart per run are compared with the model in both directions (real file -> Lean decoder, Lean encoder -> "
+              "real loader, re-encoding byte-equal to the real file), incl. all size boundaries, 16 dbs, TTLs shorter/longer than a measured downtime, off-grammar and mutated files."),
+        note=TB + "The list/zset load loops are summarised as 'first element then the rest' (argued, validated on corrupted files, not proved equal to the per-element loop); NaN scores excluded; a list headed by the internal stream marker string is a recorded finding (needs a format change).",
+        ref="DESIGN.md section 5 C09"),
     "C04": dict(
         text=("Proof: the skip-list invariant (level 0 strictly sorted by (score, member), every level a sublist of the one below, key index = level 0, length) for every "
               "operation sequence and every tower height, refinement of insert/remove to the sorted-list Spec, engine-level refinement for ZADD/ZINCRBY/ZREM/ZPOP histories, "
